@@ -66,6 +66,10 @@ def patterns():
     P["res-chunk-line-blanks"] = (lambda k: (rq, RES + b"Transfer-Encoding: chunked\r\n\r\n" + b" " * k + b"5\r\nhello\r\n0\r\n\r\n"), "res", None)
     P["res-chunk-line-tabs-cr"] = (lambda k: (rq, RES + b"Transfer-Encoding: chunked\r\n\r\n" + b"\t\r" * (k // 2) + b"5\r\nhello\r\n0\r\n\r\n"), "res", None)
     P["req-chunk-line-blanks"] = (lambda k: (CH + b" " * k + b"5\r\nhello\r\n0\r\n\r\n", b""), "req", None)
+    # a header line that is ALREADY longer than the folded-header cap, then k continuation lines of 1000 bytes: the cap must hold from there on
+    P["res-folded-past-cap"] = (lambda k: (rq, RES + b"X-Long: " + b"a" * 102500 + b"\r\n" + (b" " + b"b" * 1000 + b"\r\n") * (k // 3) + b"Content-Length: 0\r\n\r\n"), "res", None)
+    P["req-folded-past-cap"] = (lambda k: (REQ_HEAD % b"" + b"X-Long: " + b"a" * 102500 + b"\r\n" + (b" " + b"b" * 1000 + b"\r\n") * (k // 3) + b"\r\n", b""), "req", None)
+    P["res-folded-to-cap"] = (lambda k: (rq, RES + b"X-Long: v\r\n" + (b" " + b"b" * 1000 + b"\r\n") * (k // 2) + b"Content-Length: 0\r\n\r\n"), "res", None)
     P["res-identity-body"] = (lambda k: (rq, RES + b"Content-Length: %d\r\n\r\n" % (8 * k) + b"abcdefgh" * k), "res", None)
     return P
 
@@ -102,11 +106,26 @@ def check(ctx):
         vf.report_crash(ctx, "S-cost", cases, bad)
     ctx.cov["evaluations"] += len(cases)
     work = {}
+    capbad = []
     for (name, mode, k), l in zip(meta, lines):
         if l.startswith("?") or "=" not in l:
             continue
         r = parse(l)
         work[(name, mode, k)] = (r["res"] if P[name][1] == "res" else r["req"], r["maxcall"], r["calls"])
+        # the folded-header cap (Properties_C08.v C08_folded_cap: the regenerated HTP_MAX_HEADER_FOLDED) is what bounds the work per header whatever the
+        # allocator does: no header value may exceed the cap by more than one input line
+        rq_b, rs_b = P[name][0](k)
+        lens = sorted((len(x) for x in (rq_b + rs_b).split(b"\n")), reverse=True) + [0, 0]
+        # a value is its first line plus continuation lines appended while it is still shorter than the cap
+        longest = lens[0] if lens[0] <= 102400 else max(lens[0] - 102400, lens[1])
+        cap = 102400      # = c_HTP_MAX_HEADER_FOLDED, pinned by the lemma C08_folded_cap over the regenerated constant
+        if r.get("maxhdr", 0) > cap + longest and not capbad:
+            capbad.append((name, mode, k))
+            vf.violation(ctx, "folded-cap-%s-%s" % (name, mode), {
+                "kind": "folded-header-cap-not-enforced", "construct": name, "delivery": "whole" if mode == "w" else "one byte per call", "k": k,
+                "longest_header_value": r["maxhdr"], "cap": cap, "longest_input_line": longest,
+                "request_prefix": vf.hexs(rq_b)[:600], "response_prefix": vf.hexs(rs_b)[:600],
+                "note": "a header value grew beyond HTP_MAX_HEADER_FOLDED + one line: the per-header work is no longer bounded (C08_folded_cap)"})
     # model ticks
     tcases, tmeta = [], []
     for name, f in TICKS.items():
